@@ -103,10 +103,6 @@ func BuildProllyIndexExternal(ctx *sql.Context, vrw types.ValueReadWriter, ns tr
 			return nil, err
 		}
 
-		if uniqCb != nil && prefixDesc.HasNulls(idxKey) {
-			continue
-		}
-
 		if err := sorter.Insert(ctx, idxKey); err != nil {
 			return nil, err
 		}
@@ -209,7 +205,8 @@ func (t *tupleIterWithCb) Next(ctx context.Context) (val.Tuple, val.Tuple) {
 			}
 			return nil, nil
 		}
-		if t.lastKey != nil && t.uniqCb != nil {
+		// A key that holds a NULL never collides with another key (but is an index entry like any other).
+		if t.lastKey != nil && t.uniqCb != nil && !t.prefixDesc.HasNulls(curKey) {
 			cmp, cmpErr := t.prefixDesc.Compare(ctx, t.lastKey, curKey)
 			if cmpErr != nil {
 				t.err = cmpErr
